@@ -434,6 +434,7 @@ func (s *vKindSys) observe(h []string) {
 	}
 	if !s.noMulti {
 		s.observeNodes(h)
+		s.observeNodePairs(h)
 		s.observeMulti(h)
 	}
 	if s.hook != nil {
@@ -483,6 +484,44 @@ func (s *vKindSys) observeNodes(h []string) {
 				s.c.Violation("node-search-mismatch", "", s.cfgS, h, fmt.Sprintf("WithNode(%d) k=%d [%s] vs WithQuery(stored) [%s]: %s", id, k, vResStr(resN), vResStr(resQ), msg))
 			}
 			s.c.Nontrivial(fmt.Sprintf("%s|%s|node%d/%d", s.cfgS, s.m.key(), id, k))
+		}
+	}
+}
+
+// several node ids at once: == several stored vectors as queries; any dead id => error
+func (s *vKindSys) observeNodePairs(h []string) {
+	ids := append(append([]uint32{}, s.ids...), 9)
+	for _, a := range ids {
+		for _, b := range ids {
+			if a == b {
+				continue
+			}
+			s.c.Evaluations++
+			resN, errN := s.idx.NewSearch().WithNode(a, b).WithK(-1).WithNProbes(-1).Execute()
+			_, la := s.m.live[a]
+			_, lb := s.m.live[b]
+			if !la || !lb {
+				if errN == nil {
+					s.c.Violation("node-search-accepted-dead-id", "several-nodes", s.cfgS, h, fmt.Sprintf("WithNode(%d,%d) returned [%s] although one of the ids is not live", a, b, vResStr(resN)))
+				}
+				continue
+			}
+			if errN != nil {
+				s.c.Violation("node-search-error", "several-nodes", s.cfgS, h, fmt.Sprintf("WithNode(%d,%d): %v", a, b, errN))
+				continue
+			}
+			va, vb := vStoredVector(s.idx, a), vStoredVector(s.idx, b)
+			if va == nil || vb == nil {
+				continue
+			}
+			resQ, errQ := s.idx.NewSearch().WithQuery(vCopyVec(va), vCopyVec(vb)).WithK(-1).WithNProbes(-1).Execute()
+			if errQ != nil {
+				continue
+			}
+			if msg := vSameResults(resN, resQ); msg != "" {
+				s.c.Violation("node-search-mismatch", "several-nodes", s.cfgS, h, fmt.Sprintf("WithNode(%d,%d) [%s] vs WithQuery(stored vectors) [%s]: %s", a, b, vResStr(resN), vResStr(resQ), msg))
+			}
+			s.c.Nontrivial(fmt.Sprintf("%s|%s|nodes%d,%d", s.cfgS, s.m.key(), a, b))
 		}
 	}
 }
